@@ -120,6 +120,19 @@ func cmdReplay(args []string) {
 				lm = (i + si + rot) % int(gq.NumBindings)
 			}
 			w := worlds[s+string(rune('0'+lm))]
+			w.NilForm = (i/3 + si + rot) % 3
+			if s == "iface" { // every other case: one of the nodes is a struct value made of one nil pointer
+				wn := ""
+				if (i/2+rot)%2 == 0 {
+					for _, cand := range []string{"a1", "b1", "a2"} {
+						if _, has := u.Data[cand]; has {
+							wn = cand
+							break
+						}
+					}
+				}
+				w.SetWrapNode(wn)
+			}
 			act := w.Run(c, lo)
 			nontrivial := len(c.Exp.Calls) >= 2
 			rep.Case(c.Fam+"|"+s+"|"+c.Doc.Text(gq.Layouts[0])+"|"+c.Op+"|"+vh.JS(c.Vars)+"|"+vh.JS(c.Faults), nontrivial)
